@@ -1790,6 +1790,66 @@ func c06Single(w *World, r *Result) {
 					}
 				}
 			}
+			// the test has to reach every kind of node that can stand for more than one value: all
+			// implementers of the call interface (a function call, a program call with its output,
+			// error output and status)
+			capable := map[string]bool{}
+			for _, f2 := range w.Funcs("parser") {
+				if f2.Name() == "ReturnTypes" && f2.Signature.Recv() != nil && f2.Synthetic == "" {
+					// an expression node: it also answers ValueType() and Args()
+					ms := w.Prog.MethodSets.MethodSet(f2.Signature.Recv().Type())
+					has := func(n string) bool { return ms.Lookup(f2.Pkg.Pkg, n) != nil }
+					if has("ValueType") && has("Args") {
+						capable[namedName(derefType(f2.Signature.Recv().Type()))] = true
+					}
+				}
+			}
+			covered := map[string]bool{}
+			all := false
+			for _, t := range tests {
+				c, _ := condOf(t)
+				for _, rc := range returnTypesReceivers(c.(*ssa.BinOp).X, 0, map[ssa.Value]bool{}) {
+					if !rc.Call.IsInvoke() {
+						if cal := rc.Call.StaticCallee(); cal != nil && cal.Signature.Recv() != nil {
+							covered[namedName(derefType(cal.Signature.Recv().Type()))] = true
+						}
+						continue
+					}
+					// through the interface: every implementer, unless the value was narrowed by a tag test
+					narrowed := false
+					tagOf, _ := TagMap(w)
+					for tn := range capable {
+						tag := tagOf[tn]
+						if tag == "" {
+							continue
+						}
+						if hs := tagHolds(rootInterfaceValue(rc.Call.Value), rc.Block()); len(hs) > 0 {
+							narrowed = true
+							if hs[tag] {
+								covered[tn] = true
+							}
+						}
+					}
+					if !narrowed {
+						all = true
+					}
+				}
+			}
+			var uncovered []string
+			for tn := range capable {
+				if !all && !covered[tn] {
+					uncovered = append(uncovered, tn)
+				}
+			}
+			sort.Strings(uncovered)
+			kkey := "single:kinds:" + FuncName(fn)
+			if len(capable) == 0 {
+				r.Triv(rule, kkey, pos, "no node type with several results found")
+			} else if len(uncovered) > 0 {
+				r.Bad(rule, kkey, pos, fmt.Sprintf("the test for \"returns more than one value\" is made for some kinds of calls only; %v also stand for several values and pass untested: in a list of several values such a call is accepted although it yields more than one value", uncovered))
+			} else {
+				r.Ok(rule, kkey, pos, fmt.Sprintf("the multi-value test covers every node type with several results (%d)", len(capable)))
+			}
 			if bad {
 				r.Bad(rule, key, pos, "the reading loop can end (no comma follows) before the element just read was tested for \"returns more than one value\": the last element of a list of several values may be a multi-value call (a, b := 1, f2())")
 			} else {
@@ -1949,4 +2009,61 @@ func c06ZeroType(w *World, r *Result) {
 	if n == 0 {
 		r.Bad(rule, "single:zero-type:none", "-", "no function returning a type descriptor found")
 	}
+}
+
+func derefType(t types.Type) types.Type {
+	if p, ok := t.Underlying().(*types.Pointer); ok {
+		return p.Elem()
+	}
+	return t
+}
+
+// returnTypesReceivers: the ReturnTypes() calls whose length v is.
+func returnTypesReceivers(v ssa.Value, d int, seen map[ssa.Value]bool) []*ssa.Call {
+	if d > 5 || seen[v] {
+		return nil
+	}
+	seen[v] = true
+	switch x := v.(type) {
+	case *ssa.Call:
+		if bi, ok := x.Call.Value.(*ssa.Builtin); ok && bi.Name() == "len" && len(x.Call.Args) == 1 {
+			if c, ok := x.Call.Args[0].(*ssa.Call); ok {
+				name := ""
+				if c.Call.IsInvoke() {
+					name = c.Call.Method.Name()
+				} else if cal := c.Call.StaticCallee(); cal != nil {
+					name = cal.Name()
+				}
+				if name == "ReturnTypes" {
+					return []*ssa.Call{c}
+				}
+			}
+		}
+	case *ssa.Phi:
+		var out []*ssa.Call
+		for _, e := range x.Edges {
+			out = append(out, returnTypesReceivers(e, d+1, seen)...)
+		}
+		return out
+	}
+	return nil
+}
+
+// rootInterfaceValue: the interface value an asserted / converted value was taken from.
+func rootInterfaceValue(v ssa.Value) ssa.Value {
+	for i := 0; i < 6; i++ {
+		switch x := v.(type) {
+		case *ssa.TypeAssert:
+			v = x.X
+		case *ssa.ChangeInterface:
+			v = x.X
+		case *ssa.Extract:
+			v = x.Tuple
+		case *ssa.MakeInterface:
+			v = x.X
+		default:
+			return v
+		}
+	}
+	return v
 }
